@@ -38,7 +38,9 @@ type ModifySigners struct {
 func unmarshalAndVerifyData(data []byte) (types.Signers, error) {
 	// newSigners := make(types.Signers, 0)
 	newSigners := &ModifySigners{}
-	err := json.Unmarshal(data, &newSigners)
+	// not &newSigners: a JSON `null` would reset the pointer itself to nil (dereferenced just below);
+	// unmarshalled into the struct it fails the required-field check like any other malformed data
+	err := json.Unmarshal(data, newSigners)
 	if err != nil {
 		return nil, err
 	}
